@@ -7,16 +7,22 @@ import (
 	"math"
 	"strconv"
 	"strings"
+	"sync"
 
 	logging "gopkg.in/op/go-logging.v1"
 )
 
 var ExpressionParser ExpressionParserInterface
 
+var initExpressionParserOnce sync.Once
+
+// InitExpressionParser creates the shared expression parser; safe to call from several goroutines.
 func InitExpressionParser() {
-	if ExpressionParser == nil {
-		ExpressionParser = newExpressionParser()
-	}
+	initExpressionParserOnce.Do(func() {
+		if ExpressionParser == nil {
+			ExpressionParser = newExpressionParser()
+		}
+	})
 }
 
 var log = logging.MustGetLogger("yq-lib")
